@@ -6,16 +6,34 @@ import (
 	"encoding/asn1"
 	"github.com/gr33nbl00d/caddy-revocation-validator/core"
 	"github.com/gr33nbl00d/caddy-revocation-validator/crl/crlreader"
+	"time"
 )
 
 type ASN1Serializer struct {
+}
+
+// crlMetaInfoRawNextUpdate is crlreader.CRLMetaInfo with the NextUpdate left undecoded: asn1.Marshal writes a NextUpdate outside of
+// 1950..2049 as generalized time, the implicit tag hides that and asn1.Unmarshal reads the content as utc time only
+type crlMetaInfoRawNextUpdate struct {
+	Issuer     pkix.RDNSequence
+	ThisUpdate time.Time
+	NextUpdate asn1.RawValue `asn1:"optional"`
 }
 
 func (C ASN1Serializer) DeserializeMetaInfo(crlMetaBytes []byte) (*crlreader.CRLMetaInfo, error) {
 	metaInfo := new(crlreader.CRLMetaInfo)
 	_, err := asn1.Unmarshal(crlMetaBytes, metaInfo)
 	if err != nil {
-		return nil, err
+		rawNextUpdate := new(crlMetaInfoRawNextUpdate)
+		_, errRaw := asn1.Unmarshal(crlMetaBytes, rawNextUpdate)
+		if errRaw != nil {
+			return nil, err
+		}
+		nextUpdate, errRaw := time.Parse("20060102150405Z0700", string(rawNextUpdate.NextUpdate.Bytes))
+		if errRaw != nil {
+			return nil, err
+		}
+		return &crlreader.CRLMetaInfo{Issuer: rawNextUpdate.Issuer, ThisUpdate: rawNextUpdate.ThisUpdate, NextUpdate: nextUpdate}, nil
 	}
 	return metaInfo, nil
 }
